@@ -711,12 +711,10 @@ func (w *Writer) AddSkin(skeleton animation.Skeleton) (*int, int) {
 	})
 	w.bytesWritten += inverseBindMAtrixLen
 
-	w.skins = []Skin{
-		{
-			Joints:              jointIndices,
-			InverseBindMatrices: len(w.accessors) - 1,
-		},
-	}
+	w.skins = append(w.skins, Skin{
+		Joints:              jointIndices,
+		InverseBindMatrices: len(w.accessors) - 1,
+	})
 	return ptrI(len(w.skins) - 1), w.scene[len(w.scene)-1]
 }
 
